@@ -66,6 +66,7 @@ def apply_op(joker, op, lib_obj, lib_path, data=None):
 def run_history(hist, seed, gseed, pool_spec=("serial",), pool=None):
     """returns (digests per step, global-state-changed flags per step, exception or None)"""
     np.random.seed(gseed)
+    np.random.normal()  # leave a cached Gaussian in the legacy global state (has_gauss = 1): it is part of that state too
     random.seed(gseed)
     rng = np.random.default_rng(seed)
     scratch = seams.fresh_dir("c10")
